@@ -227,6 +227,17 @@ func (w *World) CheckLifecycle(out *Outcome, o *Obs) []Violation {
 			}
 		}
 	}
+	// "depends back" also follows by-name lookups made from inside Init
+	back := map[string][]string{}
+	for _, h := range sdl.SortedKeys(edges) {
+		back[h] = append(back[h], edges[h]...)
+	}
+	for _, h := range sdl.SortedKeys(o.InitLookups) {
+		for _, tid := range sdl.SortedKeys(o.InitLookups[h]) {
+			back[h] = append(back[h], tid)
+			held[tid] = true // a performed lookup needs (and creates) its target
+		}
+	}
 	reach := func(from, to string) bool {
 		seen := map[string]bool{from: true}
 		q := []string{from}
@@ -236,7 +247,7 @@ func (w *World) CheckLifecycle(out *Outcome, o *Obs) []Violation {
 			if x == to {
 				return true
 			}
-			for _, y := range edges[x] {
+			for _, y := range back[x] {
 				if !seen[y] {
 					seen[y] = true
 					q = append(q, y)
